@@ -79,6 +79,10 @@ FaultAt(step, x) == round = 1 /\ Ft.step = step /\ Ft.f * 10 + Ft.k = x
 FaultFile(step, f) == round = 1 /\ Ft.step = step /\ Ft.f = f
 MainFile == CHOOSE f \in 1..NF : File(f).kind = "main"
 Root(f)  == f * 10 + 1
+\* files of the load under test (round 1) / of the follow-up (round 2)
+LoadedIn(rd) == IF rd = 1 THEN {f \in 1..NF : File(f).kind # "follow"} ELSE {f \in 1..NF : File(f).kind = "follow"}
+\* models of the failed first load still marked "under construction" in the global repository
+Stale == IF outcome[1] \in {"", "ok", "Boom:modelproc"} THEN {} ELSE repo \cap LoadedIn(1)
 
 RECURSIVE AncSelf(_)
 AncSelf(o) == IF o = 0 THEN {} ELSE {o} \cup AncSelf(Par(o))
@@ -220,10 +224,14 @@ NestedReturn ==
 Unres(f) == SeqOfSet({r \in RefsOf(f) : r \notin resolved})
 BeginRound ==
   /\ At("round")
-  /\ LET td == ConcatMap(Unres, Top.grp) IN
-     stack' = SetTop(IF td = <<>> THEN [Top EXCEPT !.pc = "endc", !.i = 1]
-                     ELSE [Top EXCEPT !.pc = "resolve", !.todo = td, !.prog = FALSE])
-  /\ Tau /\ UNCHANGED <<sc, round, phase, exc, cvars, ovars, rvars>>
+  /\ IF S.grepo /\ File(Top.f).kind # "inner" /\ Stale # {}
+     THEN \* a model left "under construction" in the global repository joins this load and breaks it
+          Raise("AttributeError") /\ UNCHANGED stack
+     ELSE LET td == ConcatMap(Unres, Top.grp) IN
+          /\ stack' = SetTop(IF td = <<>> THEN [Top EXCEPT !.pc = "endc", !.i = 1]
+                             ELSE [Top EXCEPT !.pc = "resolve", !.todo = td, !.prog = FALSE])
+          /\ UNCHANGED exc
+  /\ Tau /\ UNCHANGED <<sc, round, phase, cvars, ovars, rvars>>
 
 PostOf(r) == IF FaultAt("unresolvable", r) THEN 9 ELSE RefRec(r).post
 
@@ -342,6 +350,12 @@ ParserActive(fr) == fr.pc \notin {"mprocs", "nret", "return", "ret2"}
 HandlerDecs(fr) == IF ~ParserActive(fr) THEN 0
                    ELSE IF fr.f \in held \/ "RestoreWithoutInstrument" \in Dev THEN 1 ELSE 0
 
+\* frames inside parse_tree_to_objgraph's try block: their handler removes the models under
+\* construction from the repositories -- which it finds through attributes of the frame's root
+CleanupPcs == {"register", "imports", "round", "resolve", "endc", "inits", "procs"}
+RootUnreadable(f) == LET o == Root(f) IN IsUser(o) /\ o \in store[Cls(o)] /\ instr[Cls(o)] = 0
+Cleans(fr) == fr.pc \in CleanupPcs /\ ~RootUnreadable(fr.f)
+
 Unwind ==
   /\ phase = "run" /\ exc # "" /\ stack # <<>>
   /\ LET fr == Top
@@ -350,8 +364,9 @@ Unwind ==
      IN
      IF ~fr.top
      THEN /\ instr' = DecAll(instr, d1) /\ held' = h1
+          /\ repo' = IF Cleans(fr) THEN repo \ stack[TopIdx].mine ELSE repo
           /\ stack' = Pop /\ Tau
-          /\ UNCHANGED <<phase, exc, store, repo, outcome>>
+          /\ UNCHANGED <<phase, exc, store, outcome>>
      ELSE \* the boundary of a top-level load: what a failed load leaves behind
           LET rest == h1 \cap fr.mine
               d2   == IF "RestoreOnlyMainParser" \in Dev THEN 0 ELSE Cardinality(rest)
@@ -363,6 +378,7 @@ Unwind ==
           /\ store' = IF "StoreKeptOnFailure" \in Dev THEN store
                       ELSE [c \in User |-> store[c] \ mineObjs]
           /\ repo' = IF "NoCleanupOnModelProcessorFailure" \in Dev /\ fr.pc = "return" THEN repo
+                     ELSE IF fr.pc \in CleanupPcs /\ RootUnreadable(fr.f) THEN repo
                      ELSE repo \ fr.mine
           /\ Emit(Ev("LoadEnd", fr.f, 0, exc))
           /\ stack' = Pop
@@ -378,6 +394,9 @@ Out(o) == {x \in Kids(o) : x \in done}
           \cup (IF o \in done /\ Par(o) # 0 THEN {Par(o)} ELSE {})
           \cup {Target(r) : r \in {x \in resolved : Owner(x) = o}}
           \cup (IF IdxOf(o) = 1 THEN {Root(p[2]) : p \in {q \in linked : q[1] = FileOf(o)}} ELSE {})
+          \* the Import children of a root (not numbered as objects) point back to it
+          \cup (IF IdxOf(o) = 1 /\ File(FileOf(o)).imports # <<>> /\ (alloc \cap ObjsOf(FileOf(o))) # {o}
+                THEN {o} ELSE {})
 RECURSIVE Reach(_)
 Reach(T) == LET N == T \cup UNION {Out(x) : x \in T} IN IF N = T THEN T ELSE Reach(N)
 Reachable == Reach(UNION {Out(u) : u \in UNION {store[c] : c \in User}} \cup {Root(f) : f \in repo})
@@ -423,7 +442,6 @@ Next ==
 ----------------------------------------------------------------------------
 \* Properties
 Idle == stack = <<>> /\ phase \in {"between", "cmp", "end"}
-LoadedIn(rd) == IF rd = 1 THEN {f \in 1..NF : File(f).kind # "follow"} ELSE {f \in 1..NF : File(f).kind = "follow"}
 
 \* C14: each user object is initialised at most once, and exactly once when its load succeeds
 C14_InitOnce ==
